@@ -71,3 +71,40 @@ package parser
 //@ ensures innermost: is(err, parser.Error) && (err.(parser.Error).Path() != "" || err.(parser.Error).LineNumber() != 0) ==> result == err
 //@ ensures outerloc: err != nil && !is(err, parser.Error) ==> result.LineNumber() == loc.SourceLocation().LineNo && result.Path() == loc.SourceLocation().Pathname && result.Cause() == err
 //@ ensures unlocated: is(err, parser.Error) && err.(parser.Error).Path() == "" && err.(parser.Error).LineNumber() == 0 && !loc.SourceLocation().IsZero() ==> result.LineNumber() == loc.SourceLocation().LineNo && result.Path() == loc.SourceLocation().Pathname && result.Cause() == ite(err.(parser.Error).Cause() != nil, err.(parser.Error).Cause(), err)
+
+// ---- tokenizer (C05, C07, C13, C19) -----------------------------------------------
+// tokobj / toktag describe a match of the matcher built for four delimiters: it starts
+// with the left and ends with the right delimiter and holds at least one more byte.
+//@ define tokobj(re Int, s Str, a Int, b Int) Bool = hasprefix(substr(s, a, b), tmd(re, 0)) && substr(s, b - len(tmd(re, 1)), b) == tmd(re, 1) && b - a >= len(tmd(re, 0)) + 1 + len(tmd(re, 1)) && !hasprefix(substr(s, a, b), tmd(re, 2))
+//@ define toktag(re Int, s Str, a Int, b Int) Bool = hasprefix(substr(s, a, b), tmd(re, 2)) && substr(s, b - len(tmd(re, 3)), b) == tmd(re, 3) && b - a >= len(tmd(re, 2)) + 1 + len(tmd(re, 3)) && !hasprefix(substr(s, a, b), tmd(re, 0))
+
+//@ func parser.formTokenMatcher
+//@ unverified
+//@ props C19 C05
+//@ requires four: len(delims) == 4
+//@ assigns alloc S$Str
+//@ ensures built: result != nil && forall(k, 0, 4, tmd(result, k) == delims[k])
+
+//@ func parser.Scan
+//@ props C05 C07 C13 C19 C01
+//@ panics nothing
+//@ requires delims: len(delims) != 4 || forall(k, 0, 4, len(delims[k]) == 2)
+//@ ghost cov Int = 0
+//@ ghost pendingL Bool = false
+//@ at call append #* before assert contiguous: arg1[0].Source == substr(data, cov, cov + len(arg1[0].Source)) && cov + len(arg1[0].Source) <= len(data)
+//@ at call append #* before assert line: arg1[0].Source != "" ==> arg1[0].SourceLoc.LineNo == loc0.LineNo + count(substr(data, 0, cov), '\n') && arg1[0].SourceLoc.Pathname == loc0.Pathname
+//@ at call append #*: cov = cov + len(arg1[0].Source)
+//@ at call append #1 before assert text: arg1[0].Type == TextTokenType
+//@ at call append #2: pendingL = true
+//@ at call append #3 before assert object: arg1[0].Type == ObjTokenType && pendingL == (at(arg1[0].Source, 2) == '-')
+//@ at call append #3: pendingL = false
+//@ at call append #4 before assert trimRightObj: arg1[0].Type == TrimRightTokenType && arg1[0].Source == ""
+//@ at call append #5: pendingL = true
+//@ at call append #6 before assert tag: arg1[0].Type == TagTokenType && pendingL == (at(arg1[0].Source, 2) == '-')
+//@ at call append #6: pendingL = false
+//@ at call append #7 before assert trimRightTag: arg1[0].Type == TrimRightTokenType && arg1[0].Source == ""
+//@ at call append #8 before assert tail: arg1[0].Type == TextTokenType
+//@ loop 1 invariant pos: cov == p && 0 <= p && p <= len(data) && !pendingL && pe == len(data)
+//@ loop 1 invariant ordered: _i > 0 ==> matches[_i-1][1] <= p
+//@ loop 1 invariant line: loc.LineNo == loc0.LineNo + count(substr(data, 0, p), '\n') && loc.Pathname == loc0.Pathname
+//@ ensures partition: cov == len(data)
